@@ -21,7 +21,7 @@ MANIFEST = {
                   '(loop invariant + vstack bookkeeping).  From |component| <= 1/2 and radius < half the perpendicular width the re-imaged '
                   'difference is the minimum image and the inverse operation is an isometry (assumed space-group/lattice compatibility), '
                   'hence every point lies inside the radius - stated as lemmas over the assumed SymmOp algebra.  Supercell folding: '
-                  'positions\' = frac(k x), test lattice = diag(1/k) M.',
+                  'positions\' = frac(k x) (the scaled test lattice only feeds a warning).',
     'level_note': 'Trusted: pymatgen SymmOp.operate / inverse.operate_multi as an affine bijection that is an isometry of the lattice metric '
                   '(compatibility of space group and lattice), get_all_distances as mindist, numpy digitize/vstack/boolean-mask contracts, '
                   'L-perp (Cauchy-Schwarz with the reciprocal vectors) as assumed mathematics, floats as reals, pyvc itself.',
@@ -225,13 +225,7 @@ def unit_fold(tier):
             ik = 1 / k[c]
             out.append((f'axis {c}: folded coordinate = (x mod 1/k) * k', z3.ForAll([i], z3.Implies(z3.And(i >= 0, i < AB),
                                                                                              v == (x - ik * z3.ToReal(z3.ToInt(x / ik))) * k[c]))))
-        tl = rec.get('test_lattice')
-        mt = st['lat'].get('_m')
-        if isinstance(tl, SObj) and tl.has('matrix') and isinstance(tl.get('matrix'), STensor):
-            M2 = tl.get('matrix')
-            out.append(('test lattice = diag(1/k) . M', z3.And(*[M2.at(a, b) == mt[a][b] / k[a] for a in range(3) for b in range(3)])))
-        else:
-            out.append(('test lattice built', z3.BoolVal(False)))
+        # (the scaled test lattice only feeds a similarity *warning*; it does not influence any result and is not constrained)
         out.append(('radius passed on', z3.BoolVal(rec.get('radius') is st['r'])))
         return out
     u.prove_function('gemdat.shape', 'ShapeAnalyzer.analyze_trajectory', setup, post, raises=(),
